@@ -128,12 +128,25 @@ func (g *gen) genRun(thorough bool, dstZones []string) *run {
 			}
 		}
 	} else {
-		// no prefix: the schedule is read in the process-local zone, which is set to the zone under test
-		r.Local = r.Zone
-		if r.Local == "UTC" {
-			r.Local = "Etc/UTC"
+		// no prefix: the schedule is read in the zone of the instant handed to Next ("schedules without a time zone
+		// ... are treated as local to the time provided", spec.go; this is how cron.WithLocation reaches a schedule)
+		if g.rng.Intn(2) == 0 {
+			// the process-local zone is the zone under test and the instants are carried in time.Local
+			r.Local = r.Zone
+			if r.Local == "UTC" {
+				r.Local = "Etc/UTC"
+			}
+			r.Carry = "local"
+		} else {
+			// the instants are carried in the zone under test; the process-local zone is something else
+			r.Carry = "zone"
+			if g.rng.Intn(2) == 0 {
+				r.Local = g.otherZone(r.Zone)
+				if r.Local == "UTC" {
+					r.Local = "Etc/UTC"
+				}
+			}
 		}
-		r.Carry = "same"
 	}
 	start, h, aim := g.pickStart(z, loc)
 	r.Start = start
